@@ -68,7 +68,7 @@ type Broker struct {
 	events []HookEvent
 	logBuf *lockedBuf
 	nconn  int
-	ctl    *Controller
+	ctl    atomic.Pointer[Controller]
 }
 
 type lockedBuf struct {
@@ -139,6 +139,8 @@ type Client struct {
 	Version byte // protocol version for decoding broker output (set by the harness at CONNECT)
 	done    chan struct{}
 	Err     error // what EstablishConnection returned
+	DoneSeq int64 // global sequence number at which the handler returned (valid once Done())
+	RetSeq  atomic.Int64 // sequence number at the handler's deferred return point (0: never registered); only with a controller
 
 	outIdx  int
 	rx      []byte
@@ -172,6 +174,7 @@ func (b *Broker) Attach() *Client {
 		registerGoroutine(c)
 		defer unregisterGoroutine()
 		c.Err = b.S.EstablishConnection("mem", c.MC)
+		c.DoneSeq = b.Seq.Next()
 		b.act.Add(1)
 		close(c.done)
 	}()
@@ -448,19 +451,41 @@ func goid() int64 {
 	return v
 }
 
-func registerGoroutine(b *Client) {
+func installController() {
 	ctlInstalled.Do(func() {
 		mqtt.SetVerifController(func(point, id string) {
-			if ctlActive.Load() == 0 {
+			if v, ok := goMap.Load(goid()); ok {
+				if ctlActive.Load() == 0 {
+					return
+				}
+				if ctl := v.(*Client).B.ctl.Load(); ctl != nil {
+					ctl.hit(v.(*Client), point, id)
+				}
 				return
 			}
-			if v, ok := goMap.Load(goid()); ok {
-				if cl := v.(*Client); cl.B.ctl != nil {
-					cl.B.ctl.hit(cl, point, id)
-				}
+			// a broker goroutine the harness did not start (real listeners): only observed, never parked
+			if f := pointObserver.Load(); f != nil {
+				(*f)(point, id)
 			}
 		})
 	})
+}
+
+var pointObserver atomic.Pointer[func(point, id string)]
+
+// ObservePoints installs (nil: removes) an observer for schedule points passed by broker goroutines
+// that were not started through Broker.Attach (connections accepted by real listeners).
+func ObservePoints(f func(point, id string)) {
+	installController()
+	if f == nil {
+		pointObserver.Store(nil)
+		return
+	}
+	pointObserver.Store(&f)
+}
+
+func registerGoroutine(b *Client) {
+	installController()
 	goMap.Store(goid(), b)
 }
 func unregisterGoroutine() { goMap.Delete(goid()) }
